@@ -1159,6 +1159,10 @@ struct KnownRun {
 	/// tips of honest headers the subject knows (candidates for the caller's sync head)
 	tips: Vec<grin_chain::Tip>,
 	sync_calls: u64,
+	/// the chain's `pow_verifier` is the constant `Ok` (dbwin mode)
+	always_ok: bool,
+	/// line domain: `node` (verdicts compared as model observables) or `wnode` (as spec values)
+	dom: &'static str,
 }
 
 impl KnownRun {
@@ -1168,7 +1172,7 @@ impl KnownRun {
 
 	/// a header as delivered, with the answers of the cycle verifier and of the root comparison
 	fn fhdr(&self, h: &BlockHeader) -> String {
-		let powok = pc(|| pow::verify_size(h).is_ok()).unwrap_or(false);
+		let powok = self.always_ok || pc(|| pow::verify_size(h).is_ok()).unwrap_or(false);
 		format!(
 			"{}:{}:{}:{}:{}:{}",
 			h64(&h.hash()),
@@ -1186,7 +1190,7 @@ impl KnownRun {
 			show_tip(&c.header_head().unwrap()),
 			show_tip(&c.head().unwrap())
 		);
-		out.line(&format!("cons node {} state", id), &s);
+		out.line(&format!("cons {} {} state", self.dom, id), &s);
 		s
 	}
 
@@ -1195,7 +1199,7 @@ impl KnownRun {
 			Ok(h) => show_stored(&h),
 			Err(_) => "none".to_string(),
 		};
-		out.line(&format!("cons node {} get {}", id, h64(hash)), &s);
+		out.line(&format!("cons {} {} get {}", self.dom, id, h64(hash)), &s);
 		s
 	}
 
@@ -1219,7 +1223,8 @@ impl KnownRun {
 		};
 		out.line(
 			&format!(
-				"cons node {} sync {} {} [{}]",
+				"cons {} {} sync {} {} [{}]",
+				self.dom,
 				id,
 				opts.bits(),
 				show_tip(&sync_head),
@@ -1239,7 +1244,7 @@ impl KnownRun {
 			Some(Err(e)) => chain_err_class(e),
 		};
 		out.line(
-			&format!("cons node {} pbh {} {}", id, opts.bits(), self.fhdr(h)),
+			&format!("cons {} {} pbh {} {}", self.dom, id, opts.bits(), self.fhdr(h)),
 			&class,
 		);
 		self.stats.hit(&format!("pbh_{}", class));
@@ -1283,7 +1288,8 @@ impl KnownRun {
 		};
 		out.line(
 			&format!(
-				"cons node {} pb {} {} {}",
+				"cons {} {} pb {} {} {}",
+				self.dom,
 				id,
 				opts.bits(),
 				if bodyok { 1 } else { 0 },
@@ -1411,6 +1417,8 @@ fn run_known(out: &mut Out, rng: &mut Rng, thorough: bool) {
 		oracle_fails: 0,
 		tips: vec![],
 		sync_calls: 0,
+		always_ok: false,
+		dom: "node",
 	};
 	let sid = "s";
 	out.line(&format!("cons node {} new {}", sid, kr.fhdr(&genesis.header)), "ok");
@@ -1871,6 +1879,359 @@ fn run_known(out: &mut Out, rng: &mut Rng, thorough: bool) {
 		kr.stats.hit("oracle_ok");
 	}
 	kr.stats.dump(out, "known");
+}
+
+// ---------------------------------------------------------------------------------------------
+// dbwin mode: the difficulty window as the node reads it back from its database
+// ---------------------------------------------------------------------------------------------
+
+fn ok_verifier(_: &BlockHeader) -> Result<(), pow::Error> {
+	Ok(())
+}
+
+/// the true difficulty window behind the last header of `main` (latest first): what the headers
+/// SAID when they were delivered, not what any store returns
+fn true_window(main: &[BlockHeader]) -> Vec<HeaderDifficultyInfo> {
+	let mut w = vec![];
+	let mut i = main.len();
+	while i > 0 && w.len() < 70 {
+		i -= 1;
+		let prev_td = if i > 0 { main[i - 1].pow.total_difficulty.to_num() } else { 0 };
+		w.push(hdi(
+			main[i].timestamp.timestamp() as u64,
+			main[i].pow.total_difficulty.to_num() - prev_td,
+			main[i].pow.secondary_scaling,
+			main[i].pow.proof.edge_bits == consensus::SECOND_POW_EDGE_BITS,
+		));
+	}
+	w
+}
+
+/// a header on top of `prev` with the given difficulty step / scaling / edge bits; the proof is a
+/// made-up ascending nonce list whose hash gives `to_difficulty >= 2 * diff + 2` (the chain's
+/// cycle verifier is the constant Ok); `None` if no such list was found
+fn make_db_header(
+	rng: &mut Rng,
+	prev: &BlockHeader,
+	prev_root: Hash,
+	diff: u64,
+	scaling: u32,
+	eb: u8,
+	gap: i64,
+	reach: bool,
+) -> Option<BlockHeader> {
+	let mut h = BlockHeader::default();
+	h.height = prev.height + 1;
+	h.version = consensus::header_version(h.height);
+	h.prev_hash = prev.hash();
+	h.prev_root = prev_root;
+	set_ts(&mut h, prev.timestamp.timestamp() + gap);
+	h.output_root = Hash::from_vec(&rng.bytes(32));
+	h.kernel_root = Hash::from_vec(&rng.bytes(32));
+	h.output_mmr_size = grin_core::core::pmmr::insertion_to_pmmr_index(h.height + 1);
+	h.kernel_mmr_size = grin_core::core::pmmr::insertion_to_pmmr_index(h.height + 1);
+	h.pow.total_difficulty = Difficulty::from_num(prev.pow.total_difficulty.to_num() + diff);
+	// (after the last hard fork the scaling field is free, and a C29 proof is still scaled by it)
+	h.pow.secondary_scaling = if h.version.0 >= 5 && eb == consensus::SECOND_POW_EDGE_BITS {
+		scaling.max(1856)
+	} else {
+		scaling
+	};
+	h.pow.nonce = rng.next();
+	h.pow.proof.edge_bits = eb;
+	let n = global::proofsize();
+	let space = if eb >= 63 { u64::MAX } else { 1u64 << eb };
+	if (space as u128) < n as u128 {
+		return None;
+	}
+	for _ in 0..400_000 {
+		let mut set = std::collections::BTreeSet::new();
+		while set.len() < n {
+			set.insert(rng.below(space));
+		}
+		h.pow.proof.nonces = set.into_iter().collect();
+		let d = pc(|| h.pow.to_difficulty(h.height).to_num()).unwrap_or(0);
+		if !reach || d >= diff.saturating_mul(2).saturating_add(2) {
+			return Some(h);
+		}
+	}
+	None
+}
+
+fn run_dbwin(out: &mut Out, rng: &mut Rng, thorough: bool) {
+	use grin_core::core::pmmr::{ReadablePMMR, VecBackend, PMMR};
+	let work = std::env::var("VERIF_WORK").unwrap_or_else(|_| "/verif/work/cons-dbwin.d".to_string());
+	let _ = std::fs::remove_dir_all(&work);
+	std::fs::create_dir_all(&work).unwrap();
+	let chains: [(ChainTypes, &str, &str, u64, usize); 4] = [
+		(ChainTypes::Mainnet, "main", "wm", 1 << 17, if thorough { 400 } else { 150 }),
+		(ChainTypes::Testnet, "test", "wt", 1 << 16, if thorough { 300 } else { 120 }),
+		(ChainTypes::AutomatedTesting, "auto", "wa", 1000, if thorough { 120 } else { 40 }),
+		(ChainTypes::UserTesting, "user", "wu", 3000, if thorough { 120 } else { 40 }),
+	];
+	for (ct, cn, id, g_td, n_headers) in chains.iter() {
+		global::set_local_chain_type(*ct);
+		let mut kr = KnownRun {
+			stats: Stats(BTreeMap::new()),
+			roots: BTreeMap::new(),
+			oracle_fails: 0,
+			tips: vec![],
+			sync_calls: 1,
+			always_ok: true,
+			dom: "wnode",
+		};
+		let mut genesis = match ct {
+			ChainTypes::Mainnet => genesis::genesis_main(),
+			ChainTypes::Testnet => genesis::genesis_test(),
+			_ => genesis::genesis_dev(),
+		};
+		// a moderate starting difficulty, so that made-up proofs reach it and integer effects show
+		genesis.header.pow.total_difficulty = Difficulty::from_num(*g_td);
+		let chain = match pc(|| {
+			Chain::init(
+				format!("{}/{}", work, cn),
+				Arc::new(NoopAdapter {}),
+				genesis.clone(),
+				ok_verifier,
+				false,
+				None,
+			)
+		}) {
+			Some(Ok(c)) => c,
+			other => {
+				out.raw(&format!(
+					"#ORACLE-FAIL C04 dbwin: cannot open a {} chain: {:?}",
+					cn,
+					other.map(|r| r.err().map(|e| format!("{:?}", e)))
+				));
+				continue;
+			}
+		};
+		out.line(&format!("cons wnode {} newct {} {}", id, cn, kr.fhdr(&genesis.header)), "ok");
+		kr.state(out, id, &chain);
+		// the main chain as delivered, and its header MMR kept in memory (for prev_root)
+		let mut main: Vec<BlockHeader> = vec![genesis.header.clone()];
+		let mut ba = VecBackend::<BlockHeader>::new();
+		let mut mmr_size = 0u64;
+		{
+			let mut p = PMMR::at(&mut ba, mmr_size);
+			p.push(&genesis.header).unwrap();
+			mmr_size = p.size;
+		}
+		let min_eb = global::min_edge_bits();
+		let primaries: Vec<u8> = match ct {
+			ChainTypes::Mainnet | ChainTypes::Testnet => vec![31, 32, 31, 33],
+			_ => vec![min_eb, min_eb + 1, 31, 20],
+		};
+		let second = consensus::SECOND_POW_EDGE_BITS;
+		// edge bits along the chain: C29 at height 1, a run of C29, scattered, a run of primaries
+		let eb_at = |height: u64, rng: &mut Rng| -> u8 {
+			let ph = height % 130;
+			if height == 1 || (10..=24).contains(&ph) {
+				second
+			} else if (40..=58).contains(&ph) {
+				*rng.pick(&primaries)
+			} else if (70..=75).contains(&ph) {
+				second
+			} else if rng.chance(3, 10) {
+				second
+			} else {
+				*rng.pick(&primaries)
+			}
+		};
+		let probe_ebs: Vec<u8> = match ct {
+			ChainTypes::Mainnet | ChainTypes::Testnet => {
+				vec![6, 10, 23, 24, 25, 26, 27, 28, 29, 30, 31, 32, 33, 40, 63]
+			}
+			ChainTypes::AutomatedTesting => vec![6, 8, 9, 10, 11, 15, 28, 29, 30, 31, 40],
+			_ => vec![6, 10, 13, 14, 15, 16, 28, 29, 30, 31, 40],
+		};
+		let gap_of = |rng: &mut Rng| -> i64 {
+			match rng.below(8) {
+				0 => 1,
+				1 => rng.range(2, 30) as i64,
+				2 => 60,
+				3 => rng.range(61, 200) as i64,
+				4 => rng.range(200, 900) as i64,
+				5 => rng.range(900, 4000) as i64,
+				_ => rng.range(30, 120) as i64,
+			}
+		};
+		let mut not_found = 0u64;
+		while main.len() <= *n_headers {
+			let chunk = if main.len() % 7 == 3 { 3usize } else { 1 };
+			// build `chunk` correct next headers on the true window (kept in memory)
+			let base = main.len();
+			let mut built: Vec<BlockHeader> = vec![];
+			let mut roots_at: Vec<Hash> = vec![];
+			let mut nexts: Vec<HeaderDifficultyInfo> = vec![];
+			let mut ok_build = true;
+			for _ in 0..chunk {
+				let prev = main.last().unwrap().clone();
+				let tw = true_window(&main);
+				let next = consensus::next_difficulty(prev.height + 1, tw);
+				let root = PMMR::at(&mut ba, mmr_size).root().unwrap();
+				let eb = eb_at(prev.height + 1, rng);
+				let gap = gap_of(rng);
+				match make_db_header(rng, &prev, root, next.difficulty.to_num(), next.secondary_scaling, eb, gap, true) {
+					Some(h) => {
+						kr.roots.insert(h.prev_hash.to_vec(), h.prev_root);
+						let mut p = PMMR::at(&mut ba, mmr_size);
+						p.push(&h).unwrap();
+						mmr_size = p.size;
+						kr.stats.hit(if eb == second { "hdr_secondary" } else { "hdr_primary" });
+						kr.stats.hit(&format!("hdr_v{}", h.version.0));
+						main.push(h.clone());
+						built.push(h);
+						roots_at.push(root);
+						nexts.push(next);
+					}
+					None => {
+						ok_build = false;
+						not_found += 1;
+						break;
+					}
+				}
+			}
+			if !ok_build || built.is_empty() {
+				out.raw(&format!("#STAT dbwin {}: no proof reaching the difficulty found at height {}", cn, main.len()));
+				main.truncate(base);
+				break;
+			}
+			// (b) off by one in the difficulty step / the secondary scaling of the LAST built header
+			let last = built.last().unwrap().clone();
+			let lprev = main[main.len() - 2].clone();
+			let lnext = nexts.last().unwrap().clone();
+			let lroot = *roots_at.last().unwrap();
+			let lgap = last.timestamp.timestamp() - lprev.timestamp.timestamp();
+			let d0 = lnext.difficulty.to_num();
+			let s0 = lnext.secondary_scaling;
+			let variants: Vec<(&str, u64, u32, bool)> = vec![
+				("difficulty+1", d0 + 1, s0, true),
+				("difficulty-1", d0 - 1, s0, true),
+				// after the last hard fork the scaling field is free
+				("scaling+1", d0, s0.wrapping_add(1), last.version.0 < 5),
+				("scaling-1", d0, s0.wrapping_sub(1), last.version.0 < 5),
+			];
+			let hh_before = chain.header_head().unwrap();
+			// (a variant the rules allow is a valid sibling: it is offered after the exact header)
+			let mut free_siblings: Vec<BlockHeader> = vec![];
+			for (kind, d, sc, must_reject) in variants.iter() {
+				if !*must_reject {
+					if let Some(m) = make_db_header(rng, &lprev, lroot, *d, *sc, last.pow.proof.edge_bits, lgap + 1, true) {
+						free_siblings.push(m);
+					}
+					continue;
+				}
+				let m = match make_db_header(rng, &lprev, lroot, *d, *sc, last.pow.proof.edge_bits, lgap, true) {
+					Some(m) => m,
+					None => continue,
+				};
+				out.raw(&format!("# dbwin {} height {} {} chunk={}", cn, last.height, kind, chunk));
+				kr.stats.hit(&format!("variant_{}", kind));
+				let class = if chunk == 1 {
+					kr.pbh(out, id, &chain, Options::NONE, &m)
+				} else {
+					// the wrong header as the last of the chunk, or in the middle of it
+					let mut batch: Vec<BlockHeader> = built[..built.len() - 1].to_vec();
+					batch.push(m.clone());
+					if rng.chance(1, 2) {
+						batch.push(last.clone());
+						kr.stats.hit("variant_mid_chunk");
+					}
+					kr.sync(out, id, &chain, Options::NONE, &batch)
+				};
+				let hh = chain.header_head().unwrap();
+				if *must_reject {
+					if class.starts_with("ok") || class == "panic" || hh.last_block_h != hh_before.last_block_h
+						|| chain.get_block_header(&m.hash()).is_ok()
+					{
+						kr.fail(out, format!("dbwin {}: header with {} (rule: difficulty {} scaling {}) not refused: {} hdr={} true_window={}", cn, kind, d0, s0, class, show_stored(&m), show_window(&true_window(&main[..main.len() - 1]))));
+					}
+				} else if !class.starts_with("ok") {
+					kr.fail(out, format!("dbwin {}: header with free scaling refused: {} hdr={}", cn, class, show_stored(&m)));
+				}
+			}
+			// (a) exactly the rule's difficulty and scaling: accepted, becomes header_head
+			out.raw(&format!("# dbwin {} height {} exact chunk={}", cn, last.height, chunk));
+			let class = if chunk == 1 {
+				kr.pbh(out, id, &chain, Options::NONE, &last)
+			} else {
+				kr.stats.hit("chunks");
+				kr.sync(out, id, &chain, Options::NONE, &built)
+			};
+			kr.state(out, id, &chain);
+			let hh = chain.header_head().unwrap();
+			if !class.starts_with("ok") || hh.last_block_h != last.hash()
+				|| hh.total_difficulty != last.pow.total_difficulty
+			{
+				kr.fail(out, format!("dbwin {}: header with exactly the rule's difficulty {} and scaling {} refused: {} hdr={} true_window={}", cn, d0, s0, class, show_stored(&last), show_window(&true_window(&main[..main.len() - 1]))));
+				break;
+			}
+			for m in free_siblings.iter() {
+				out.raw(&format!("# dbwin {} height {} free scaling (version 5)", cn, last.height));
+				let class = kr.pbh(out, id, &chain, Options::NONE, m);
+				kr.stats.hit("free_scaling_sibling");
+				if class != "ok" {
+					kr.fail(out, format!("dbwin {}: header with another secondary_scaling after the last hard fork refused: {} hdr={}", cn, class, show_stored(m)));
+				}
+			}
+			// what the store-backed iterator reads back from the new head
+			let real: Vec<HeaderDifficultyInfo> = window_at(&chain, last.hash()).into_iter().take(61).collect();
+			let want: Vec<HeaderDifficultyInfo> = true_window(&main).into_iter().take(61).collect();
+			let (rs, ws) = (show_window(&real), show_window(&want));
+			out.line(&format!("cons wnode {} window {}", id, h64(&last.hash())), &rs);
+			kr.stats.hit("windows_read_back");
+			let nsec = want.iter().filter(|x| x.is_secondary).count();
+			kr.stats.hit(&format!(
+				"window_secondaries_{}",
+				match nsec {
+					0 => "0",
+					1..=5 => "1-5",
+					6..=20 => "6-20",
+					21..=40 => "21-40",
+					_ => ">40",
+				}
+			));
+			if rs != ws {
+				kr.fail(out, format!("dbwin {}: DifficultyIter from the store differs from the headers as delivered at height {}: store={} delivered={}", cn, last.height, rs, ws));
+			}
+			// edge-bit probes: the same height with other edge bits, otherwise by the rules
+			if last.height <= 2 || last.height % 6 == 0 {
+				for eb in probe_ebs.iter() {
+					let is_sec = *eb == second;
+					let is_pri = *eb != second && *eb >= min_eb;
+					// (a header that is neither is refused before its difficulty is looked at)
+					let m = match make_db_header(rng, &lprev, lroot, d0, s0, *eb, lgap + 1 + (*eb as i64), is_sec || is_pri) {
+						Some(m) => m,
+						None => {
+							kr.stats.hit("probe_no_proof");
+							continue;
+						}
+					};
+					out.raw(&format!("# dbwin {} height {} edge_bits={}", cn, last.height, eb));
+					let class = kr.pbh(out, id, &chain, Options::NONE, &m);
+					kr.stats.hit(&format!("probe_eb{}_{}", eb, class));
+					let want_ok = is_sec || is_pri;
+					if (want_ok && class != "ok") || (!want_ok && class != "LowEdgebits") {
+						kr.fail(out, format!("dbwin {}: header with edge_bits {} ({}) answered {}: hdr={}", cn, eb, if is_sec { "secondary" } else if is_pri { "primary" } else { "neither: LowEdgebits" }, class, show_stored(&m)));
+					}
+					if !want_ok && chain.get_block_header(&m.hash()).is_ok() {
+						kr.fail(out, format!("dbwin {}: header with edge_bits {} stored", cn, eb));
+					}
+				}
+				kr.state(out, id, &chain);
+			}
+		}
+		if not_found > 0 {
+			kr.stats.hit("proof_search_gave_up");
+		}
+		if kr.oracle_fails == 0 {
+			kr.stats.hit("oracle_ok");
+		}
+		kr.stats.0.insert("headers".to_string(), (main.len() - 1) as u64);
+		kr.stats.dump(out, &format!("dbwin {}", cn));
+	}
 }
 
 // ---------------------------------------------------------------------------------------------
@@ -2557,6 +2918,7 @@ fn main() {
 		"chain" => run_chain(&mut out, &mut rng, thorough),
 		"known" => run_known(&mut out, &mut rng, thorough),
 		"globals" => run_globals(&mut out, &mut rng, thorough),
+		"dbwin" => run_dbwin(&mut out, &mut rng, thorough),
 		_ => {
 			eprintln!("usage: cons diff|chain");
 			std::process::exit(2);
